@@ -24,7 +24,7 @@ claim('C18', 'model_checking',
       'explicit-state BFS over traffic histories executed in lock-step on two real buses (BecomeMonitor vs. disconnect of the same connection): differential oracle for non-interference plus an exact multiset oracle for what the monitor receives',
       'Histories over sends (delivered / denied by send policy / denied by receive policy / no owner / to the driver, all four types), broadcasts, RequestName/ReleaseName, connect/Hello/disconnect and BecomeMonitor with four filters '
       '(by a fresh connection or one that owns a name, is queued, holds match rules or has a call outstanding) are explored breadth-first. Run B replaces each BecomeMonitor by a disconnect: all other clients must observe identical '
-      'message sequences in both runs. The monitor must receive exactly the multiset of filter-matching messages the harness knows the bus processed, each with the true sender, and EOF once it sends anything. Filters include rules naming the unique name of a connection that disconnects later; an unfiltered reference monitor accompanies every filtered one; a reload of the unchanged configuration is an operation.',
+      'message sequences in both runs. The monitor must receive exactly the multiset of filter-matching messages the harness knows the bus processed, each with the true sender, and EOF once it sends anything. Filters include rules naming the unique name of a connection that disconnects later; an unfiltered reference monitor accompanies every filtered one; a reload of the unchanged configuration is an operation; NameLost signals to a departing connection are required at the monitor; a throw-away connection speaks before Hello under another client\'s name.',
       'Trusts pyv/models/matchrules.py for filter matching. One monitor at a time in the quick tier. The bus shows a placeholder sender for messages of connections that have not completed Hello; only "not a name of another connection" is required there.',
       'DESIGN.md section 4 C18')
 
